@@ -115,6 +115,11 @@ func (e *env) lbInner() http.Handler {
 				w.WriteHeader(o.C)
 			case "w":
 				_, _ = io.WriteString(w, data)
+			case "cp": // a std-lib helper against the real server's writer (an io.ReaderFrom)
+				src, intended := streamData(rid, k, o.C)
+				if got, err := helperWrite(w, r, o.C, src, rid%2 == 1); got != int64(len(intended)) || (err != nil) != (o.C == 5) {
+					bad = append(bad, fmt.Sprintf("std-lib helper %d of request %d returned (%d, %v), the source has %d bytes", o.C, rid, got, err, len(intended)))
+				}
 			case "hj":
 				conn, _, err := rc.Hijack()
 				if o.C == 3 { // a foreign wrapper hides the server's Hijacker
@@ -298,6 +303,10 @@ func runLoopback(res *vh.Result, clients, reqs int) (n int, skipped string, err 
 					made = append(made, call{Op: o.Op, C: o.C})
 					if o.Op == "w" {
 						want += fmt.Sprintf("data-%d-%d;", rid, j)
+					}
+					if o.Op == "cp" {
+						_, intended := streamData(rid, j, o.C)
+						want += intended
 					}
 					if o.Op == "hj" && o.C == 1 { // the handler answered by hand on the hijacked connection
 						want, wantStatus = fmt.Sprintf("data-%d-%d;", rid, j), 299
